@@ -80,3 +80,133 @@ Example C07_nonvacuous :
   | _ => False
   end.
 Proof. vm_compute. repeat split. Qed.
+
+(** ==================================================================================================
+    The same property for the STAKING farm (farm-staking), on the position-level model Model/StakingPos.v:
+    positions with attributes {reward_per_share, compounded_reward, current_farm_amount, original_owner}, who
+    holds how much of which nonce, per-user totals; accrual (APR bound, capacity), reward payment, unbond
+    tokens and admin endpoints are those of Model/Staking.v; the boosted payout [b] is an input bounded by
+    the boosted pools.  [preach dsc apr minub ops]: the state after ANY list of operations from deployment.
+    [pvalid_op]: account ids in range.  [sep_op]: additionally the whitelisted proxy keeps its positions to
+    itself and users do not call the proxy endpoints (needed only where the VIRTUAL principal is compared
+    with the supply).  From here on the names settle, pay, utot, ... are those of the staking models. *)
+From MX Require Import Model.Staking Model.StakingPos Proofs.StakingProofs Proofs.StakingPosProofs.
+
+(** S-C07a: farm-token supply = sum of all outstanding position amounts (= what the accounts hold of every
+    nonce; an endpoint burns whatever it receives), in every reachable state *)
+Theorem C07_staking_a_supply : forall dsc apr minub ops, 0 < dsc -> 0 < apr -> Forall pvalid_op ops ->
+  let sp := preach dsc apr minub ops in
+  s_supply (p_s sp) = asum (p_held sp) /\ all_nonneg (p_held sp) /\ NoDup (akeys (p_held sp)).
+Proof. exact sc07a_supply. Qed.
+Print Assumptions C07_staking_a_supply.
+
+(** S-C07b: merging two positions preserves principal and compounded sums and keeps the owner of the first; the
+    merged index is the amount-weighted average rounded UP (never below the un-rounded one, less than one unit
+    per token above it), so for every index level R the merged position is entitled to no more than the parts *)
+Theorem C07_staking_b_merge : forall a b m R, 0 < sa_amt a -> 0 < sa_amt b -> smerge_with a b = Ok m ->
+  sa_amt m = sa_amt a + sa_amt b /\ sa_comp m = sa_comp a + sa_comp b /\ sa_owner m = sa_owner a /\
+  sa_rps a * sa_amt a + sa_rps b * sa_amt b <= sa_rps m * sa_amt m < sa_rps a * sa_amt a + sa_rps b * sa_amt b + sa_amt m /\
+  sa_amt m * (R - sa_rps m) <= sa_amt a * (R - sa_rps a) + sa_amt b * (R - sa_rps b) /\
+  (sa_rps a <= R -> sa_rps b <= R -> sa_rps m <= R).
+Proof. exact smerge_entitlement. Qed.
+Print Assumptions C07_staking_b_merge.
+
+(** ... for any number of merged payments (stake / compound / merge with several positions) *)
+Theorem C07_staking_b_merge_many : forall ps sp base m R,
+  merge_payments sp base ps = Ok m -> 0 < sa_amt base -> sa_rps base <= R ->
+  Forall (fun p => 0 < snd p /\ exists a, find_sattrs (p_attrs sp) (fst p) = Some a /\ sa_rps a <= R) ps ->
+  sa_amt m * (R - sa_rps m) <= sa_amt base * (R - sa_rps base) + psum (fun n => R - srps_of sp n) ps /\
+  sa_rps m <= R /\ 0 < sa_amt m.
+Proof. exact merge_payments_entitlement. Qed.
+Print Assumptions C07_staking_b_merge_many.
+
+Theorem C07_staking_b_merge_index : forall ps sp base m,
+  merge_payments sp base ps = Ok m -> 0 < sa_amt base ->
+  Forall (fun p => 0 < snd p /\ exists a, find_sattrs (p_attrs sp) (fst p) = Some a) ps ->
+  sa_rps base * sa_amt base + psum (srps_of sp) ps <= sa_rps m * sa_amt m.
+Proof. exact merge_payments_index. Qed.
+Print Assumptions C07_staking_b_merge_index.
+
+Theorem C07_staking_b_merge_amount : forall ps sp base m, merge_payments sp base ps = Ok m ->
+  sa_amt m = sa_amt base + psum (fun _ => 1) ps /\ sa_owner m = sa_owner base.
+Proof. exact merge_payments_amt. Qed.
+Print Assumptions C07_staking_b_merge_amount.
+
+Theorem C07_staking_b_merge_compounded : forall ps sp base m, merge_payments sp base ps = Ok m ->
+  sa_comp m = sa_comp base + comp_parts sp ps.
+Proof. exact merge_payments_comp. Qed.
+Print Assumptions C07_staking_b_merge_compounded.
+
+(** splitting: index and owner unchanged, amount = the part, compounded = floor(comp * part / amount); two
+    complementary parts never carry more compounded reward than the whole *)
+Theorem C07_staking_b_split : forall a x p, 0 < x <= sa_amt a -> 0 <= sa_comp a -> sinto_part a x = Ok p ->
+  sa_rps p = sa_rps a /\ sa_amt p = x /\ sa_owner p = sa_owner a /\
+  sa_comp p * sa_amt a <= sa_comp a * x < sa_comp p * sa_amt a + sa_amt a.
+Proof. exact ssplit_spec. Qed.
+Print Assumptions C07_staking_b_split.
+
+Theorem C07_staking_b_split_no_gain : forall a x y p q, 0 < x -> 0 < y -> x + y = sa_amt a -> 0 <= sa_comp a ->
+  sinto_part a x = Ok p -> sinto_part a y = Ok q ->
+  sa_amt p + sa_amt q = sa_amt a /\ sa_comp p + sa_comp q <= sa_comp a.
+Proof. exact ssplit_no_gain. Qed.
+Print Assumptions C07_staking_b_split_no_gain.
+
+(** S-C07c: each account's tracked total farm position = sum of the held amounts of the positions whose recorded
+    original_owner is that account - in every reachable state, also after positions were transferred and then
+    used (claim / unstake / merge / stake-with-merge / compound, or by the proxy for an original caller) by
+    another account: the ORIGINAL owner's total is decreased and the acting original caller's increased *)
+Theorem C07_staking_c_owner_totals : forall dsc apr minub ops u, 0 < dsc -> 0 < apr -> Forall pvalid_op ops ->
+  let sp := preach dsc apr minub ops in
+  utot sp u = hsum (fun n => if sowner_of sp n =? u then 1 else 0) (p_held sp).
+Proof. exact sc07c_owner_totals. Qed.
+Print Assumptions C07_staking_c_owner_totals.
+
+(** ... and the saturating decrease_user_farm_position never saturates on a reachable state: the recorded
+    owner's total covers whatever part of whichever holding of his position is paid in, so the "else clear"
+    branch is taken only when total = amount *)
+Theorem C07_staking_c_no_saturation : forall dsc apr minub ops c n x a, 0 < dsc -> 0 < apr -> Forall pvalid_op ops ->
+  let sp := preach dsc apr minub ops in
+  valid_id c -> find_sattrs (p_attrs sp) n = Some a -> 0 < x <= held sp n c ->
+  x <= utot sp (sa_owner a) /\
+  exists sp', decrease_user sp (n, x) = Ok sp' /\ utot sp' (sa_owner a) = utot sp (sa_owner a) - x /\
+              (forall w, w <> sa_owner a -> utot sp' w = utot sp w).
+Proof. exact sc07c_no_saturation. Qed.
+Print Assumptions C07_staking_c_no_saturation.
+
+(** ... and what "used by another account" does to the totals, exactly as base_impl_wrapper.rs: nothing when the
+    acting original caller is the recorded owner; otherwise the paid amount leaves the RECORDED owner's total
+    (exactly) and is added to the acting caller's; nobody else's total moves *)
+Theorem C07_staking_c_use_by_other : forall sp c u n x a, Inv sp -> valid_id c ->
+  find_sattrs (p_attrs sp) n = Some a -> 0 < x <= held sp n c ->
+  (sa_owner a = u -> check_update sp u [(n, x)] = Ok sp) /\
+  (sa_owner a <> u -> exists sp', check_update sp u [(n, x)] = Ok sp' /\
+      utot sp' (sa_owner a) = utot sp (sa_owner a) - x /\ utot sp' u = utot sp u + x /\
+      (forall w, w <> sa_owner a -> w <> u -> utot sp' w = utot sp w) /\ but_utot sp' = but_utot sp).
+Proof. exact sc07c_use_by_other. Qed.
+Print Assumptions C07_staking_c_use_by_other.
+
+(** non-vacuity of the staking part *)
+Definition sp_example : list pop :=
+  [PAdmin (SSetRate 10 OWNER 1000); PAdmin (SSetState OWNER 1); PAdmin (STopUp OWNER 1000000000); PAdmin (SStart 10 OWNER);
+   PAdmin (SSetPct 10 OWNER 2500); PAdmin (SSetFactors OWNER);
+   PStake 12 5 1 1 1000000 [] 0; PStake 15 5 2 2 2500000 [] 0; PStakeProxy 16 5 PROXY 3 700000 [] 0;
+   PClaim 20 6 1 1 (1, 600000) 0; PTransfer 2 2 1 500000;
+   PStake 30 9 1 1 7 [(2, 500000); (1, 400000)] 0; PCompound 31 9 2 (2, 1000000) [] 0; PUnstake 32 9 2 2 (2, 1000000) 0;
+   PClaimNewValue 33 9 PROXY 3 (3, 700000) 800000 0; PUnstakeProxy 34 9 PROXY 3 (8, 300000) 300000 0;
+   PMerge 35 9 1 [(4, 600000); (5, 900007)] 1; PClaimBoosted 40 9 1 3; PUnbond 10 2 7 1000000].
+
+Example StakingPos_nonvacuous :
+  let sp := preach 1000000 1000000000 1 sp_example in
+  0 < s_supply (p_s sp) /\ 0 < s_pool (p_s sp) /\ 0 < p_paid sp /\ 0 < s_virt (p_s sp) /\ 0 < sclaimable sp /\
+  utot sp 1 = 1500007 /\ held sp 10 1 = 1500007 /\
+  forallb (fun k => is_ok (pstep (preach 1000000 1000000000 1 (firstn k sp_example)) (nth k sp_example (PAdmin (SDonate 1)))))
+          (seq 0 19) = true.
+Proof. vm_compute. repeat split. Qed.
+
+(** the rounding that matters: 10*3 + 11*4 = 74, ceil(74/7) = 11 (floor would give 10) *)
+Example StakingPos_merge_rounds_up :
+  match smerge_with (mkSA 10 5 3 1) (mkSA 11 0 4 2) with
+  | Ok m => sa_rps m = 11 /\ sa_amt m = 7 /\ sa_comp m = 5 /\ sa_owner m = 1
+  | _ => False
+  end.
+Proof. vm_compute. repeat split. Qed.
